@@ -549,6 +549,7 @@ SUBCHECKS = [
     _m('setitem_delitem', c03.FAMILIES['setitem_delitem'], 8000, 120000),
     _m('slice_assign_int', c03.FAMILIES['slice_assign_int']),
     _m('replace', c03.FAMILIES['replace']),
+    Sub('C12.replace_planted', run_mut, strategy=c03.replace_planted_case, examples={'quick': 5000, 'thorough': 80000}),
     _m('reverse_rotate', c03.FAMILIES['reverse_rotate']),
     _m('set_invert', c03.FAMILIES['set_invert']),
     _m('byteswap', c03.FAMILIES['byteswap']),
